@@ -1,5 +1,6 @@
 SPECIFICATION MCSpec
 CONSTANTS
+  SpuriousPass = FALSE
   AllSchedules = FALSE
   PermuteModules = FALSE
   TypeNames = {"X", "u16"}
